@@ -65,13 +65,13 @@ def run(ctx):
     if not ctx.quick:
         tr = ctx.path("small.ndjson")
         ctx.run_bin("c11", ["small", "--out", tr])
-        judge(ctx, "small", tr, 1, acc)
+        poslib.stage(ctx, judge, ctx, "small", tr, 1, acc)
     n = 4000 if ctx.quick else 60000
     tr = ctx.path("random.ndjson")
     ctx.run_bin("c11", ["random", "--seed", ctx.seed, "--n", n, "--decimals", 2, "--out", tr])
-    judge(ctx, "random", tr, 2, acc)
+    poslib.stage(ctx, judge, ctx, "random", tr, 2, acc)
 
-    if acc["capped"] == 0 or acc["profit"] == 0:
+    if (acc["capped"] == 0 or acc["profit"] == 0) and not ctx.violations:
         raise vlib.ToolError("vacuity: no capped / no profitable pnl evaluation in the validated traces")
     ctx.assumptions += [
         "index price pairs px1 <= px2 componentwise (min and max); the long token price is either fixed or equal to "
